@@ -44,7 +44,7 @@ def _alarm(sig, frm):
 
 def marked_text(src, pos):
     ln, col = pos
-    lines = src.splitlines() or ['']
+    lines = core.plines(src) or ['']
     if ln > len(lines):
         lines.append('')
     line = lines[ln - 1]
@@ -55,7 +55,7 @@ def marked_text(src, pos):
 def parses(text, filename='<c08>'):
     """-> ('ok', None) | ('syntax', exc) | ('other', exc)"""
     try:
-        ast.parse(text, filename)
+        ast.parse(text, filename or '<string>')
         return 'ok', None
     except SyntaxError as e:
         return 'syntax', e
@@ -201,7 +201,7 @@ BUILTIN_SAMPLE = ('len', 'print', 'str', 'dict', 'object', 'ValueError', 'isinst
 
 def positions_for(src, tree, rnd, n):
     """(pos, class) pairs: class tells which part of the domain the position exercises."""
-    lines = src.splitlines() or ['']
+    lines = core.plines(src) or ['']
     out = []
     names, attrs, imports, builtins_ = [], [], [], []
     if tree is not None:
@@ -248,12 +248,13 @@ def positions_for(src, tree, rnd, n):
 
 def mutations(src, rnd, k):
     """typing-state mutations: (text, cursor, label)"""
-    lines = src.splitlines()
+    lines = core.plines(src)
     out = []
     if not lines:
         return out
     for _ in range(k):
-        kind = rnd.choice(['truncate-line', 'trailing-dot', 'delete-line', 'truncate-file', 'dedent-flow', 'half-import', 'open-bracket', 'half-def'])
+        kind = rnd.choice(['truncate-line', 'trailing-dot', 'delete-line', 'truncate-file', 'dedent-flow', 'half-import', 'open-bracket', 'half-def',
+                           'line-separators'])
         ln = rnd.randrange(1, len(lines) + 1)
         line = lines[ln - 1]
         if kind == 'truncate-line':
@@ -297,6 +298,26 @@ def mutations(src, rnd, k):
             indent = line[:len(line) - len(line.lstrip())]
             new = lines[:ln - 1] + [indent + stub] + lines[ln - 1:]
             out.append(('\n'.join(new) + '\n', (ln, len(indent + stub)), kind))
+        elif kind == 'line-separators':
+            # characters str.splitlines() treats as line breaks but the parser does not (form feed as a page break on its own
+            # line or inside a string literal / comment), and CRLF line ends: line numbers must stay the parser's
+            how = rnd.choice(['formfeed-line', 'formfeed-in-comment', 'crlf', 'formfeed-in-string'])
+            if how == 'formfeed-line':
+                new = lines[:ln - 1] + ['\x0c'] + lines[ln - 1:]
+                text = '\n'.join(new) + '\n'
+            elif how == 'formfeed-in-comment':
+                new = lines[:ln - 1] + ['# page\x0cbreak \x1c \x85'] + lines[ln - 1:]
+                text = '\n'.join(new) + '\n'
+            elif how == 'formfeed-in-string':
+                new = ["_ff = 'a\x0cb'"] + lines
+                text = '\n'.join(new) + '\n'
+            else:
+                new = lines
+                text = '\r\n'.join(new) + '\r\n'
+            l2 = rnd.randrange(1, len(new) + 1)
+            out.append((text, (l2, rnd.randrange(0, len(new[l2 - 1]) + 1)), kind))
+            l3 = min(len(new), ln + 1)
+            out.append((text, (l3, len(new[l3 - 1])), kind))
         elif kind == 'half-def':
             stub = rnd.choice(['def ', 'class ', 'def f(self', 'class A(B', 'def f(a=b.', '@'])
             new = lines[:ln - 1] + [stub] + lines[ln - 1:]
@@ -318,7 +339,7 @@ def run_text(sh, project, src, filename, pos_list, label, verbatim):
             prob, cls = check_cursor(project, which, src, pos, filename)
             nontrivial = (not verbatim) or pclass in ('import-line', 'random', 'end-of-text', 'start-of-text', 'new-last-line', 'after-dot', 'name-middle', 'attr-middle', 'builtin')
             sh.case((core.digest(src), pos, which), nontrivial,
-                    {'entry': which, 'pos': pos, 'class': pclass, 'label': label, 'line': (src.splitlines() or [''])[min(pos[0], len(src.splitlines() or [''])) - 1][:80]})
+                    {'entry': which, 'pos': pos, 'class': pclass, 'label': label, 'line': (core.plines(src) or [''])[min(pos[0], len(core.plines(src) or [''])) - 1][:80]})
             sh.count('%s:%s' % (which, cls))
             sh.count('pos:' + pclass)
             if prob:
@@ -347,7 +368,7 @@ def flush(sh):
             vs = replay(dict(case, src=src))
             return any(v['signature'] == sig for v in vs)
         src = case['src']
-        if len(src.splitlines()) > 1 and len(src) < 200000:
+        if len(core.plines(src)) > 1 and len(src) < 200000:
             try:
                 if case['entry'] == 'lint':
                     src = core.minimise_lines(src, still, max_steps=150)
@@ -376,7 +397,7 @@ def w_files(job):
         for text, pos, label in mutations(src, rnd, nmut):
             sh.count('mutation:' + label)
             extra = [(pos, 'mutation-cursor')]
-            lines = text.splitlines() or ['']
+            lines = core.plines(text) or ['']
             if pos[0] <= len(lines) and pos[1] > 0:
                 extra.append(((pos[0], pos[1] - 1), 'mutation-cursor'))
             run_text(sh, project, text, path, extra, label, False)
@@ -423,6 +444,10 @@ CYCLIC_TEMPLATES = [
 ]
 
 
+NOFILE_TEMPLATES = ['from .', 'from . import x\nx.y', 'from .. import y\ny', 'from .m import *\nq', 'from ...a.b import c as d\nd.e',
+                    'import os\nos.path', 'x = 1\nx.real', 'import fx_mod\nfx_mod.fa', 'class A:\n    def m(self):\n        self.a = 1\nA().a']
+
+
 def w_cyclic(job):
     from hypothesis import strategies as st
     idx, seed, n = job
@@ -434,12 +459,18 @@ def w_cyclic(job):
         src = t + '\n'
         tree = ast.parse(src)
         pl = []
-        lines = src.splitlines()
+        lines = core.plines(src)
         for ln, line in enumerate(lines, 1):
             for col in range(len(line) + 1):
                 pl.append(((ln, col), 'cyclic'))
         for rnd_ in range(3):
             run_text(sh, project, src, fn, pl if rnd_ == 0 else pl[::7], 'cyclic-template', False)
+    # a buffer that has no file yet (filename None): every template with a relative or absolute import and plain code
+    if idx == 0:
+        for t in NOFILE_TEMPLATES:
+            src = t + '\n'
+            pl = [((ln, col), 'no-filename') for ln, line in enumerate(core.plines(src), 1) for col in range(len(line) + 1)]
+            run_text(sh, project, src, None, pl, 'no-filename', False)
     # generated assignment / inheritance / call graphs over a tiny name pool
     names = ['a', 'b', 'c']
 
@@ -461,7 +492,7 @@ def w_cyclic(job):
         lines.append('%s.x' % spec[0][1])
         lines.append('%s().m().y' % spec[0][1].upper())
         src = '\n'.join(lines) + '\n'
-        all_lines = src.splitlines()
+        all_lines = core.plines(src)
         pl = [((len(all_lines) - 1, len(all_lines[-2])), 'cyclic'), ((len(all_lines), len(all_lines[-1])), 'cyclic'),
               ((len(all_lines), len(all_lines[-1]) - 2), 'cyclic')]
         before = dict(sh.__dict__.get('seen_sigs', {}))
@@ -510,7 +541,7 @@ def decode_fuzz(data):
         return None
     body, cl, cc = data[:-2], data[-2], data[-1]
     src = ''.join(TOKENS[b % len(TOKENS)] for b in body[:80])
-    lines = src.splitlines() or ['']
+    lines = core.plines(src) or ['']
     ln = cl % len(lines) + 1
     col = cc % (len(lines[ln - 1]) + 1)
     return src, (ln, col)
@@ -630,6 +661,8 @@ def run(run):
 def replay(case):
     project = suppview.project()
     fn = case.get('filename') or suppview.filename_for(False)
+    if 'filename' in case and case['filename'] is None:
+        fn = None           # recorded from the no-filename stream
     if case['entry'] == 'lint':
         prob, cls = check_lint(project, case['src'], fn)
     else:
